@@ -36,6 +36,7 @@ RULE = (
     "distinct = (op-kind sequence with runs collapsed, first 10) x set of contribution classes assembled; "
     "non-trivial = at least one assemble with >= 3 contributions followed by an evaluate"
 )
+RULE += " Arrays returned at the first evaluation state are kept and compared again after the evaluation at the second state (no shared result storage)."
 RULE += " System.step_callback is compared as the sequential application of the contributions' callbacks in registration order (order-sensitive callbacks on fake bodies and couplers that share coordinates; the harness's own evaluation leaves Sphere2Sphere's reference basis untouched)."
 COMPONENTS = {
     "real": ["cardillo.System (add/remove/pop/extend/assemble and every evaluation method)", "all library contribution classes listed in the rule"],
@@ -921,6 +922,7 @@ class Machine:
         s = self.system
         cs = [s.origin] + [self.items[i] for i in self.present]
         R = Ref(cs, conn, own, totals)
+        held = {}  # results of the first state, kept by the caller while the system is evaluated elsewhere
         for si, S in enumerate(self.states()):
             for name, (sysf, reff) in _methods(S).items():
                 err_s = err_r = None
@@ -928,7 +930,10 @@ class Machine:
                     warnings.simplefilter("ignore")
                     s.reset()
                     try:
-                        a = np.asarray(sysf(s), dtype=float)
+                        raw = sysf(s)
+                        a = np.asarray(raw, dtype=float)
+                        if si == 0 and isinstance(raw, np.ndarray):
+                            held[name] = (raw, raw.copy())
                     except Exception as e:
                         err_s = e
                     s.reset()
@@ -958,6 +963,17 @@ class Machine:
                 self.complex_step(k, R, S)
                 if self.out["violations"]:
                     return
+        # a result handed out earlier still is the scatter at ITS state after the system was evaluated at another one
+        # (finite differences, collected histories)
+        for name, (raw, kept) in held.items():
+            self.out["probes"]["held_result_rechecked"] += 1
+            if raw.shape != kept.shape or not np.array_equal(raw, kept, equal_nan=True):
+                self.bad(
+                    "result_aliased",
+                    name,
+                    f"op {k}: the array returned by System.{name} at one state changed while the system was evaluated at another state (max change {float(np.max(np.abs(raw - kept))) if raw.shape == kept.shape and raw.size else 'shape'}): results of different evaluations share storage",
+                )
+                return
 
     def complex_step(self, k, R, S):
         """The library offers complex-step differentiation ("cs"): a kinematic / force evaluation handed complex
